@@ -37,6 +37,8 @@ type planStep struct {
 	Family  int64       `json:"fam"`
 	Inject  []injection `json:"inject,omitempty"`
 	Racing  []rowRec    `json:"racing,omitempty"` // data flush started between WriteRows and CommitSequence of this entry
+	// RaceDuring: the flush is started by another goroutine right before the replicator's WriteRows of that entry
+	RaceDuring bool `json:"race_during,omitempty"`
 }
 
 type plan struct {
@@ -275,7 +277,7 @@ func makePlan(r *rand.Rand, idx int, tier string, t0 int64) *plan {
 	var cycles []string
 	switch idx % 3 {
 	case 0:
-		cycles = []string{"busy", "drain", "idle", "busy"}
+		cycles = []string{"busy", "busy", "drain", "idle", "busy"}
 	case 1:
 		cycles = []string{"quiet", "idle", "busy", "drain"}
 	default:
@@ -289,11 +291,13 @@ func makePlan(r *rand.Rand, idx int, tier string, t0 int64) *plan {
 	// the last busy cycle after the first cycle is driven step by step and starts its data flushes between WriteRows and
 	// CommitSequence of an entry for old series; of the other cycles about half run through the real doFlush
 	raceCycle := -1
+	nrace := idx
 	for c, kind := range cycles {
-		if kind == "busy" && c >= 1 {
+		if kind == "busy" && c >= 1 && raceCycle < 0 {
 			raceCycle = c
 		}
 	}
+	_ = nrace
 	// setup arrivals
 	g.cycle = 0
 	add(planStep{Kind: "arrive", Cycle: -1, Actions: []action{g.appendAction(3), g.appendAction(2), g.replicate(true)}})
@@ -381,8 +385,19 @@ func makePlan(r *rand.Rand, idx int, tier string, t0 int64) *plan {
 					switch {
 					case c == raceCycle:
 						d.Racing = g.racingRows(s, fam)
-					case r.Intn(2) == 0:
-						d.Inject = append(d.Inject, g.genericInjection(8))
+						d.RaceDuring = nrace%2 == 1
+						if d.RaceDuring && len(d.Racing) > 0 {
+							// more rows: the write takes longer
+							for i := 0; i < 4; i++ {
+								d.Racing = append(d.Racing, g.racingRows(s, fam)[0])
+							}
+						}
+						nrace++
+					case fam == families[0] || r.Intn(2) == 0:
+						// rows arrive (and are replicated) while the table file of the data flush is being written
+						inj := g.genericInjection(4)
+						inj.Actions = append(inj.Actions, action{Kind: "replicate", Steps: -1})
+						d.Inject = append(d.Inject, inj)
 					}
 				}
 				add(d)
